@@ -1,8 +1,272 @@
-import Hidi
-namespace Hidi.Props.C06
-open Hidi
+/-
+  C06 — the transfer function of an axis (`shapeRaw`, `flipVal`, `ccByte`, `pitchBendEvent` of
+  `Hidi/Engine.lean`): range, monotonicity, exact end stops, rest position inside the deadzone,
+  and the same for the controller byte, the signed scaling and the 14-bit pitch-bend value.
 
-/-- placeholder obligation replaced by the real theorems below as they are proved -/
-theorem init_not_dead (cfg : Config) : (Dev.init cfg).dead = false := rfl
+  All statements are about the exact binary64 model of `Hidi/Float.lean` (every operation is
+  followed by `rnd53`), not about real arithmetic.
+-/
+import HidiProofs.AxisLemmas
+namespace Hidi.Props.C06
+open Hidi Hidi.Spec Hidi.FloatLemmas Hidi.AxisLemmas
+
+/-! ### the shaped value -/
+
+/-- the shaped value stays in [-1, 1] -/
+theorem C06_shape_range {mn mx : Int} {dzc : Bool} {dz : Rat} {raw : Int}
+    (h : axisOK mn mx dzc dz raw = true) :
+    -1 ≤ shapeRaw mn mx dzc dz raw ∧ shapeRaw mn mx dzc dz raw ≤ 1 := by
+  obtain ⟨_, _, h3, _, h5, _, h7⟩ := axisOK_iff.mp h
+  obtain ⟨a, b, c⟩ := normRaw_range h
+  have hc : dzc = true → 0 ≤ normRaw mn mx raw := fun hd => c (by have := h5 hd; omega)
+  obtain ⟨d, e⟩ := centre_range a b hc
+  rw [shapeRaw_eq]
+  exact ⟨dzCut_ge_neg_one h7 d, dzCut_le_one h7 e⟩
+
+/-- … and in [0, 1] for an unsigned axis without centring -/
+theorem C06_shape_range_unsigned {mx : Int} {dz : Rat} {raw : Int}
+    (h : axisOK 0 mx false dz raw = true) :
+    0 ≤ shapeRaw 0 mx false dz raw := by
+  obtain ⟨_, _, h3, _, _, _, h7⟩ := axisOK_iff.mp h
+  obtain ⟨_, _, c⟩ := normRaw_range h
+  rw [shapeRaw_eq]
+  exact dzCut_nonneg h7 (centre_nonneg_of_not (c h3))
+
+/-- monotone in the raw position -/
+theorem C06_shape_mono {mn mx : Int} {dzc : Bool} {dz : Rat} {r1 r2 : Int}
+    (h1 : axisOK mn mx dzc dz r1 = true) (h2 : axisOK mn mx dzc dz r2 = true) (h : r1 ≤ r2) :
+    shapeRaw mn mx dzc dz r1 ≤ shapeRaw mn mx dzc dz r2 := by
+  obtain ⟨_, hpos, hmn1, _, _, _, h7⟩ := axisOK_iff.mp h1
+  obtain ⟨_, _, _, hmx2, _, _, _⟩ := axisOK_iff.mp h2
+  rw [shapeRaw_eq, shapeRaw_eq]
+  exact dzCut_mono h7 (centre_mono (normRaw_mono hmn1 hmx2 hpos h))
+
+/-! ### end stops -/
+
+/-- the physical end stops map exactly to the ends -/
+theorem C06_end_stop_max {mn mx : Int} {dzc : Bool} {dz : Rat}
+    (h : axisOK mn mx dzc dz mx = true) :
+    shapeRaw mn mx dzc dz mx = 1 := by
+  obtain ⟨_, hpos, _, _, _, _, h7⟩ := axisOK_iff.mp h
+  have hmx0 : (0 : ℚ) < mx := by exact_mod_cast hpos
+  have hab : rabs (mx : ℚ) = (mx : ℚ) := by rw [rabs_eq, abs_of_pos hmx0]
+  have hn : normRaw mn mx mx = 1 := by
+    unfold normRaw
+    rw [if_neg (by omega), hab]
+    exact fdiv_self hmx0.ne'
+  have hc : centre dzc 1 = 1 := by
+    unfold centre
+    split_ifs
+    · unfold fsub fmul
+      norm_num [rnd53_two, rnd53_one]
+    · rfl
+  rw [shapeRaw_eq, hn, hc]
+  exact dzCut_one h7
+
+theorem C06_end_stop_min_signed {mn mx : Int} {dz : Rat} (hmn : mn < 0)
+    (h : axisOK mn mx false dz mn = true) :
+    shapeRaw mn mx false dz mn = -1 := by
+  obtain ⟨_, _, _, _, _, _, h7⟩ := axisOK_iff.mp h
+  have hmn0 : (mn : ℚ) < 0 := by exact_mod_cast hmn
+  have hab : rabs (mn : ℚ) = -(mn : ℚ) := by rw [rabs_eq, abs_of_neg hmn0]
+  have hn : normRaw mn mx mn = -1 := by
+    unfold normRaw fdiv
+    rw [if_pos hmn, hab, div_neg, div_self hmn0.ne, rnd53_neg_one]
+  have hc : centre false (-1) = -1 := rfl
+  rw [shapeRaw_eq, hn, hc]
+  exact dzCut_neg_one h7
+
+theorem C06_end_stop_min_centred {mx : Int} {dz : Rat} (h : axisOK 0 mx true dz 0 = true) :
+    shapeRaw 0 mx true dz 0 = -1 := by
+  obtain ⟨_, _, _, _, _, _, h7⟩ := axisOK_iff.mp h
+  have hn : normRaw 0 mx 0 = 0 := by
+    simp [normRaw, fdiv, rnd53_zero]
+  have hc : centre true 0 = -1 := by
+    simp [centre, fsub, fmul, rnd53_zero, rnd53_neg_one]
+  rw [shapeRaw_eq, hn, hc]
+  exact dzCut_neg_one h7
+
+theorem C06_end_stop_min_unsigned {mx : Int} {dz : Rat} (h : axisOK 0 mx false dz 0 = true) :
+    shapeRaw 0 mx false dz 0 = 0 := by
+  obtain ⟨_, _, _, _, _, h6, _⟩ := axisOK_iff.mp h
+  have hn : normRaw 0 mx 0 = 0 := by
+    simp [normRaw, fdiv, rnd53_zero]
+  have hc : centre false 0 = 0 := rfl
+  rw [shapeRaw_eq, hn, hc]
+  exact dzCut_zero h6
+
+/-! ### rest position -/
+
+/-- positions inside the deadzone give exactly 0 (deadzone a binary64 value, no centring) -/
+theorem C06_rest {mn mx : Int} {dz : Rat} {raw : Int} (_h : axisOK mn mx false dz raw = true)
+    (hrep : rnd53 dz = dz)
+    (hin : rabs ((raw : Rat) / (if raw < 0 then rabs (mn : Rat) else rabs (mx : Rat))) < dz) :
+    shapeRaw mn mx false dz raw = 0 := by
+  rw [rabs_eq (_ / _), abs_lt] at hin
+  rw [shapeRaw_eq]
+  have hc : ∀ x, centre false x = x := fun _ => rfl
+  rw [hc]
+  unfold normRaw fdiv
+  split_ifs with hr
+  · rw [if_pos hr] at hin
+    exact dzCut_rest hrep hin.1 hin.2
+  · rw [if_neg hr] at hin
+    exact dzCut_rest hrep hin.1 hin.2
+
+/-! ### controller value -/
+
+/-- controller value: range, ends, centre, monotone -/
+theorem C06_cc_range {a : Rat} (h0 : 0 ≤ a) (h1 : a ≤ 1) : ccByte a ≤ 127 := by
+  obtain ⟨l, u⟩ := ftrunc127_range h0 h1
+  unfold ccByte u8
+  omega
+
+theorem C06_cc_zero : ccByte 0 = 0 := by
+  simp [ccByte, fmul, rnd53_zero, ftrunc_zero, u8]
+
+theorem C06_cc_one : ccByte 1 = 127 := by
+  simp [ccByte, fmul, rnd53_127, ftrunc_127, u8]
+
+theorem C06_cc_half : ccByte (1/2) = 63 := by
+  have hr : rnd53 (127 * (1/2)) = 127/2 := by
+    have := rnd53_of_rep' 127 (-1) (by norm_num)
+    norm_num at this ⊢; exact this
+  have hf : ftrunc (127/2 : ℚ) = 63 := by
+    rw [ftrunc_def, if_neg (by norm_num), Int.floor_eq_iff]; norm_num
+  unfold ccByte fmul
+  rw [hr, hf]; rfl
+
+theorem C06_cc_mono {a b : Rat} (h0 : 0 ≤ a) (hab : a ≤ b) (h1 : b ≤ 1) : ccByte a ≤ ccByte b := by
+  obtain ⟨la, ua⟩ := ftrunc127_range h0 (le_trans hab h1)
+  obtain ⟨lb, ub⟩ := ftrunc127_range (le_trans h0 hab) h1
+  have hm : ftrunc (fmul 127 a) ≤ ftrunc (fmul 127 b) := by
+    apply ftrunc_mono
+    unfold fmul
+    exact rnd53_mono (by linarith)
+  unfold ccByte u8
+  omega
+
+/-! ### signed scaling -/
+
+/-- the unidirectional signed scaling (v+1)/2 maps [-1,1] onto [0,1] with exact ends and centre -/
+theorem C06_signed_scale {v : Rat} (h0 : -1 ≤ v) (h1 : v ≤ 1) :
+    0 ≤ fdiv (fadd v 1) 2 ∧ fdiv (fadd v 1) 2 ≤ 1 := by
+  have a : 0 ≤ fadd v 1 := rnd53_nonneg (by linarith)
+  have b : fadd v 1 ≤ 2 := by
+    have := rnd53_mono (show v + 1 ≤ 2 by linarith); rwa [rnd53_two] at this
+  unfold fdiv
+  exact ⟨rnd53_nonneg (by linarith), rnd53_le_one (by linarith)⟩
+
+theorem C06_signed_scale_ends :
+    fdiv (fadd (-1) 1) 2 = 0 ∧ fdiv (fadd 0 1) 2 = 1/2 ∧ fdiv (fadd 1 1) 2 = 1 := by
+  refine ⟨?_, ?_, ?_⟩
+  · simp [fdiv, fadd, rnd53_zero]
+  · simp only [fdiv, fadd, zero_add, rnd53_one, rnd53_half]
+  · have : (1:ℚ) + 1 = 2 := by norm_num
+    simp only [fdiv, fadd, this, rnd53_two]
+    norm_num [rnd53_one]
+
+theorem signed_scale_mono {x y : Rat} (h : x ≤ y) : fdiv (fadd x 1) 2 ≤ fdiv (fadd y 1) 2 := by
+  unfold fdiv fadd
+  apply rnd53_mono
+  have := rnd53_mono (show x + 1 ≤ y + 1 by linarith)
+  linarith
+
+/-! ### pitch bend -/
+
+/-- pitch bend: 14-bit range, exact ends, centre 8192, monotone. `pbTarget x` is the integer the
+    model encodes. -/
+def pbTarget (x : Rat) : Int := fround (fmul 16383 (fdiv (fadd x 1) 2))
+
+theorem C06_pb_range {x : Rat} (h0 : -1 ≤ x) (h1 : x ≤ 1) : 0 ≤ pbTarget x ∧ pbTarget x ≤ 16383 := by
+  obtain ⟨l, u⟩ := C06_signed_scale h0 h1
+  have a : 0 ≤ fmul 16383 (fdiv (fadd x 1) 2) := rnd53_nonneg (by linarith)
+  have b : fmul 16383 (fdiv (fadd x 1) 2) ≤ 16383 := by
+    have := rnd53_mono (show 16383 * fdiv (fadd x 1) 2 ≤ 16383 by linarith)
+    rwa [rnd53_16383] at this
+  have a' := fround_mono a
+  have b' := fround_mono b
+  rw [fround_zero] at a'
+  rw [fround_16383] at b'
+  exact ⟨a', b'⟩
+
+theorem C06_pb_encoding (ch : Nat) (x : Rat) (h0 : -1 ≤ x) (h1 : x ≤ 1) :
+    pitchBendEvent ch x =
+      .midi ((stPB ||| ch) % 256) ((pbTarget x) % 128).toNat ((pbTarget x) / 128).toNat := by
+  obtain ⟨l, u⟩ := C06_pb_range h0 h1
+  have : (pbTarget x / 128) % 128 = pbTarget x / 128 := by omega
+  show Out.midi _ (pbTarget x % 128).toNat ((pbTarget x / 128) % 128).toNat = _
+  rw [this]
+
+theorem C06_pb_ends : pbTarget (-1) = 0 ∧ pbTarget 0 = 8192 ∧ pbTarget 1 = 16383 := by
+  obtain ⟨e1, e2, e3⟩ := C06_signed_scale_ends
+  refine ⟨?_, ?_, ?_⟩
+  · unfold pbTarget; rw [e1]
+    simp [fmul, rnd53_zero, fround_zero]
+  · unfold pbTarget; rw [e2]
+    have hr : rnd53 (16383 * (1/2)) = 16383/2 := by
+      have := rnd53_of_rep' 16383 (-1) (by norm_num)
+      norm_num at this ⊢; exact this
+    unfold fmul
+    rw [hr, fround_def, if_neg (by norm_num), Int.floor_eq_iff]; norm_num
+  · unfold pbTarget; rw [e3]
+    unfold fmul
+    rw [mul_one, rnd53_16383, fround_16383]
+
+theorem C06_pb_mono {x y : Rat} (h : x ≤ y) : pbTarget x ≤ pbTarget y := by
+  unfold pbTarget
+  apply fround_mono
+  unfold fmul
+  apply rnd53_mono
+  have := signed_scale_mono h
+  linarith
+
+/-! ### flipping -/
+
+/-- flipping keeps the range and reverses the order -/
+theorem C06_flip_range_signed {v : Rat} (h0 : -1 ≤ v) (h1 : v ≤ 1) (flip : Bool) :
+    -1 ≤ flipVal true flip v ∧ flipVal true flip v ≤ 1 := by
+  cases flip
+  · exact ⟨h0, h1⟩
+  · simp only [flipVal, if_true]
+    constructor <;> linarith
+
+theorem C06_flip_range_unsigned {v : Rat} (h0 : 0 ≤ v) (h1 : v ≤ 1) (flip : Bool) :
+    0 ≤ flipVal false flip v ∧ flipVal false flip v ≤ 1 := by
+  cases flip
+  · exact ⟨h0, h1⟩
+  · have e : flipVal false true v = fsub 1 v := rfl
+    rw [e]; unfold fsub
+    exact ⟨rnd53_nonneg (by linarith), rnd53_le_one (by linarith)⟩
+
+theorem C06_flip_antitone {canNeg : Bool} {v w : Rat} (h : v ≤ w) :
+    flipVal canNeg true w ≤ flipVal canNeg true v := by
+  cases canNeg
+  · have e : ∀ x, flipVal false true x = fsub 1 x := fun _ => rfl
+    rw [e, e]; unfold fsub
+    exact rnd53_mono (by linarith)
+  · have e : ∀ x, flipVal true true x = -x := fun _ => rfl
+    rw [e, e]; linarith
+
+/-! ### non-vacuity: the hypotheses are satisfiable -/
+
+example : axisOK (-128) 127 false (1/4) 127 = true := axisOK_iff.mpr (by norm_num)
+example : axisOK (-128) 127 false (1/4) (-128) = true := axisOK_iff.mpr (by norm_num)
+example : axisOK 0 255 true (1/4) 0 = true := axisOK_iff.mpr (by norm_num)
+example : axisOK 0 255 false (1/4) 0 = true := axisOK_iff.mpr (by norm_num)
+example : axisOK 0 255 false 0 17 = true := axisOK_iff.mpr (by norm_num)
+/-- the Go literal `0.05` (nearest binary64) is an admissible deadzone -/
+example : axisOK (-128) 127 false (rnd53 (1/20)) 127 = true := by
+  have a : 0 ≤ rnd53 (1/20) := rnd53_nonneg (by norm_num)
+  have b : rnd53 (1/20) ≤ 1/2 := by
+    have := rnd53_mono (show (1/20 : ℚ) ≤ 1/2 by norm_num); rwa [rnd53_half] at this
+  exact axisOK_iff.mpr ⟨by norm_num, by norm_num, by norm_num, by norm_num, by simp, a, by linarith⟩
+/-- a position inside the deadzone 1/4 (a binary64 value) of a signed axis -/
+example : rnd53 (1/4) = 1/4 ∧
+    rabs (((-20 : Int) : Rat) / (if (-20 : Int) < 0 then rabs ((-128 : Int) : Rat) else rabs ((127 : Int) : Rat))) < 1/4 := by
+  constructor
+  · have := rnd53_of_rep' 1 (-2) (by norm_num)
+    norm_num at this ⊢; exact this
+  · rw [rabs_eq]; norm_num [rabs_eq]
 
 end Hidi.Props.C06
